@@ -152,7 +152,12 @@ func genC10(seed uint64, part string) *Scenario {
 	if strings.HasPrefix(part, "race") {
 		return genC10Race(seed, part)
 	}
-	sc := &Scenario{Fam: "C10/" + part, Seed: seed, Q: -1, Width: 100, End: "natural", Policy: r.PickS("none", "light", "heavy")}
+	sc := &Scenario{Fam: "C10/" + part, Seed: seed, Q: -1, Width: 100, End: "natural", Policy: r.PickS("none", "light", "heavy", "barop", "barop")}
+	if sc.Policy == "barop" {
+		// the bar's goroutine is held back after every operation it serves, so that
+		// the clients' calls queue up and interleave at its channel
+		sc.Policy, sc.Target = "targeted", "bar.op"
+	}
 	sc.Mode = r.PickS("auto", "auto", "manual", "none")
 	sc.RefreshUS = r.Pick(50, 200, 1000)
 	nb := r.Range(1, 3)
@@ -165,14 +170,19 @@ func genC10(seed uint64, part string) *Scenario {
 		b.Rm = r.Chance(1, 4)
 		sc.Bars = append(sc.Bars, b)
 	}
-	if r.Chance(1, 4) {
+	if r.Chance(1, 3) {
 		// increments each followed by a read, racing one SetTotal(-1, true) on a bar of unknown total
 		sc.Bars = []BarSpec{simpleBar(int64(r.Pick(0, -1)))}
 		sc.Bars[0].Filler = "nop"
 		sc.Bars[0].Finish = "settotal"
+		long := r.Bool() // long streams: the assignment lands in the middle of the increments
 		for c := 0; c < r.Range(2, 4); c++ {
 			var ops []Op
-			for i := 0; i < r.Range(4, 10); i++ {
+			k := r.Range(4, 10)
+			if long {
+				k = r.Range(12, 30)
+			}
+			for i := 0; i < k; i++ {
 				ops = append(ops, Op{K: r.PickS("increment", "incr"), B: 0, N: 1}, Op{K: "cur", B: 0})
 			}
 			sc.Clients = append(sc.Clients, ops)
@@ -180,6 +190,12 @@ func genC10(seed uint64, part string) *Scenario {
 		var ops []Op
 		for i := 0; i < r.Range(0, 6); i++ {
 			ops = append(ops, Op{K: "yield", N: int64(r.Intn(3))})
+		}
+		if long {
+			// keep pace with the incrementers for a while before assigning
+			for i := 0; i < r.Range(2, 16); i++ {
+				ops = append(ops, Op{K: "cur", B: 0})
+			}
 		}
 		ops = append(ops, Op{K: "settotal", B: 0, N: -1, F: true}, Op{K: "cur", B: 0}, Op{K: "compl", B: 0})
 		sc.Clients = append(sc.Clients, ops)
